@@ -123,7 +123,8 @@ def rv(args, timeout=600):
 
 def tlc(module, cfg, workdir, env=None, workers=1, timeout=900, xmx="3g", extra=None, deque=False):
     """Run TLC on spec/<module>.tla with spec/<cfg>; returns (rc, output)."""
-    meta = os.path.join(workdir, "md_%s_%d" % (os.path.basename(cfg), int(time.time() * 1000) % 10 ** 9))
+    # unique per call: several validations of one configuration run side by side
+    meta = os.path.join(workdir, "md_%s_%d_%d_%s" % (os.path.basename(cfg), os.getpid(), int(time.time() * 1000) % 10 ** 9, os.urandom(3).hex()))
     jopts = "-Xss1g"
     if deque:
         jopts += " -Dtlc2.tool.queue.IStateQueue=StateDeque"
